@@ -87,7 +87,7 @@ FILTERS = ["RUNNING", "SUCCEEDED", "FAILED", "TIMED_OUT", "ABORTED"]
 BAD_FILTERS = ["BAD", "", "running", None, 0, 5, False, True, ["RUNNING"], [], {"a": 1}, {}]
 TRUTHY = [True, 1, "x", "false", [0], {"a": 0}, -1]      # `if reverse_order:` is Python truthiness of any JSON value
 FALSY = [False, 0, "", None, [], {}]
-PAGING = [1, 0, 1000, -1, "5", None, True, [1], {"a": 1}, "", "tok", "eyJhIjoxfQ=="]
+PAGING = [1, 1, 0, 2, 1000, -1, "5", "1", None, True, [1], {"a": 1}, "", "tok", "eyJhIjoxfQ=="]
 STATUSES = ["RUNNING", "SUCCEEDED", "FAILED", "TIMED_OUT", "ABORTED"]
 RAW_BODIES = ["[1]", "5", "\"x\"", "null", "true", "{bad", "", "[]", "{\"stateMachineArn\": ", "hex:ff", "hex:c328"]
 BAD_ACTIONS = ["Nope", "InvalidAction", "", "createStateMachine", "StopExecution", "__class__"]
@@ -151,7 +151,7 @@ class Gen:
 
     def sm(self, express=False):
         """mostly a machine that exists right now"""
-        if express and self.express and self.rng.random() < 0.6:
+        if express and self.express and self.rng.random() < 0.8:
             return self.rng.choice(self.express)
         if self.live and self.rng.random() < 0.8:
             return self.rng.choice(self.live)
@@ -1067,6 +1067,8 @@ def directed_histories():
                              "stateMachineArn": m1, "status": status, "stopDate": None if status == "RUNNING" else 950}})
     for status in STATUSES + ["BAD", None, 0]:
         h.append(call("ListExecutions", {"stateMachineArn": m1, "statusFilter": status}))
+    h += [call("ListExecutions", {"stateMachineArn": m1, "maxResults": 1}),          # six executions, one page all the same
+          call("ListExecutions", {"stateMachineArn": m1, "maxResults": 0, "nextToken": "1"})]
     orphan, odd, nolog = ex_arn(ACCOUNTS[0], "m", "o1"), ex_arn(ACCOUNTS[0], "m", "o2"), ex_arn(ACCOUNTS[0], "m1", "o3")
     rec = lambda arn, sm: {"executionArn": arn, "input": None, "name": arn.rsplit(":", 1)[-1], "output": None,
                            "startDate": 901, "stateMachineArn": sm, "status": "RUNNING", "stopDate": None}
